@@ -40,17 +40,23 @@ class C02(CoreProp):
         "data maps iterate in sorted key order, object literals in source order; objects grown from {} are a listed finding class",
     ]
     not_yet_proved = [
-        "now a theorem (C02_control_simulation, C02_program_scalar; Proofs/C02SimProofs.v + C01EvalProofs.v + C02InstProofs.v): for the "
-        "each-free control fragment — text, tags without attributes, escaped buffered code, var / assignment / ++, if / else-if / else, "
-        "while with the cap — over the scalar expression fragment (goodS: literals, variables, the core operators, ! unary - ?:, "
-        "operands that can be dead without +) and top-level data that is a map of in-range scalars with lower-first keys, the executor "
-        "run on the TREE-LEVEL lowering (Pug/Lower.v lower_nodes) prints exactly what S (Spec/Sem.v sem_run) prescribes when S raises no "
-        "deviation flag, and ends in the execution error exactly when S prescribes the while-bound error (or the model's fuel runs out: "
-        "OFuel). The tie lower_nodes = parse_program (compile nodes) is checked per case by the judge (Run/Judge_Core.v lower_seam), not "
-        "proved",
-        "remains on the correspondence run: each (arrays / data maps / object literals, loop-variable scoping), case, mixins and blocks, "
-        "attributes, unescaped buffered code, expressions over the heap (arrays, objects, member, index, method calls), data that is not "
-        "a flat map of scalars, and the token-level step parse_program (compile nodes) = lower_nodes as ONE theorem through "
+        "now a theorem (C02_control_simulation, C02_program_scalar, C02_program_each, C02_each_simulation; Proofs/C02SimProofs.v + "
+        "C01EvalProofs.v + C02InstProofs.v): for the control fragment — text, doctype, tags without attributes, escaped buffered code, "
+        "buffered string / number / boolean / null literals, var / assignment / ++, if / else-if / else, case / when / default, while "
+        "with the cap, and each (with and without key) over a plain variable that holds an array of scalars or a data map of scalars "
+        "(or null / undefined / nothing) — over the scalar expression fragment (goodS: literals, variables, the core operators, ! "
+        "unary - ?:, operands that can be dead without +) and top-level data that is a map with lower-first keys of in-range scalars "
+        "and, under keys that are not scalar names, arrays of scalars (< 10^10 elements) and maps of scalars (keys listed ascending), "
+        "the executor run on the TREE-LEVEL lowering (Pug/Lower.v lower_nodes) prints exactly what S (Spec/Sem.v sem_run) prescribes "
+        "when S raises no deviation flag, and ends in the execution error exactly when S prescribes the while-bound error (or the "
+        "model's fuel runs out: OFuel). Scoping discipline of the lowering (checked by lower, needed because the engine never pops a "
+        "variable): an each-variable is mentioned inside its own loop only, loop variables are distinct and not re-used by a nested "
+        "each, `global` is never mentioned, a doctype and a case do not occur in one program (trim marker). The tie lower_nodes = "
+        "parse_program (compile nodes) is checked per case by the judge (Run/Judge_Core.v lower_seam), not proved",
+        "remains on the correspondence run: each over object literals / nested collections / expressions other than a variable, "
+        "loop variables read after their loop or shadowing a bound name (listed finding F-C02-f), mixins and blocks, attributes, "
+        "unescaped buffered code of non-literals, expressions over the heap (arrays, objects, member, index, method calls), data with "
+        "nested collections, and the token-level step parse_program (compile nodes) = lower_nodes as ONE theorem through "
         "Pug/Compile.v's byte output and the token parser; for those the executor-level theorems of Proofs/C02Proofs.v (first-truthy "
         "selection, once-per-element iteration in order, what is iterated, while rounds, the cap error, flat variables, fuel "
         "monotonicity) stay the proved part and every case is judged against BOTH the model and S",
